@@ -21,7 +21,8 @@ type (
 
 var (
 	vkAll    = []int{ik.ClsFinite, ik.ClsExtreme, ik.ClsSpecial}
-	vkNoSpec = []int{ik.ClsFinite, ik.ClsExtreme}
+	vkRed    = []int{ik.ClsFinite, ik.ClsExtreme, ik.ClsSpecial, ik.ClsInf}
+	vkPrefix = []int{ik.ClsFinite, ik.ClsExtreme, ik.ClsSpecial, ik.ClsHuge}
 )
 
 func vkRet(v float64) complex128 { return complex(v, 0) }
@@ -42,10 +43,10 @@ var vkOps = []*vkOp{
 			AxpyIncTo(a.Dst, a.IncD, a.ID, a.Alpha, a.X, a.Y, a.N, a.IncX, a.IncY, a.IX, a.IY)
 		}},
 
-	{Name: "DotUnitary", Family: "Dot", Classes: vkNoSpec, Red: ik.RedDot,
+	{Name: "DotUnitary", Family: "Dot", Classes: vkRed, Red: ik.RedDot,
 		Shape: ik.Shape{HasX: true, HasY: true},
 		Call:  func(a *vkArgs) { a.Ret = vkRet(DotUnitary(a.X, a.Y)) }},
-	{Name: "DotInc", Family: "Dot", Classes: vkNoSpec, Red: ik.RedDot,
+	{Name: "DotInc", Family: "Dot", Classes: vkRed, Red: ik.RedDot,
 		Shape: ik.Shape{HasX: true, HasY: true, Inc: true, Idx: true, NegInc: true},
 		Call:  func(a *vkArgs) { a.Ret = vkRet(DotInc(a.X, a.Y, a.N, a.IncX, a.IncY, a.IX, a.IY)) }},
 
@@ -68,10 +69,10 @@ var vkOps = []*vkOp{
 	{Name: "AddConst", Family: "Elem", Classes: vkAll, Ref: ik.RefAddConst[float64],
 		Shape: ik.Shape{HasX: true, WritesX: true, Alpha: true},
 		Call:  func(a *vkArgs) { AddConst(a.Alpha, a.X) }},
-	{Name: "CumSum", Family: "Elem", Classes: vkAll, Ref: ik.RefCumSum[float64], Prefix: "sum",
+	{Name: "CumSum", Family: "Elem", Classes: vkPrefix, Ref: ik.RefCumSum[float64], Prefix: "sum",
 		Shape: ik.Shape{HasX: true, HasDst: true, RetDst: true, AliasX: true},
 		Call:  func(a *vkArgs) { a.RetS = CumSum(a.Dst, a.X) }},
-	{Name: "CumProd", Family: "Elem", Classes: vkAll, Ref: ik.RefCumProd[float64], Prefix: "prod",
+	{Name: "CumProd", Family: "Elem", Classes: vkPrefix, Ref: ik.RefCumProd[float64], Prefix: "prod",
 		Shape: ik.Shape{HasX: true, HasDst: true, RetDst: true, AliasX: true},
 		Call:  func(a *vkArgs) { a.RetS = CumProd(a.Dst, a.X) }},
 	{Name: "Div", Family: "Elem", Classes: vkAll, Ref: ik.RefDiv[float64],
@@ -81,16 +82,16 @@ var vkOps = []*vkOp{
 		Shape: ik.Shape{HasX: true, HasY: true, HasDst: true, RetDst: true, AliasX: true, AliasY: true},
 		Call:  func(a *vkArgs) { a.RetS = DivTo(a.Dst, a.X, a.Y) }},
 
-	{Name: "Sum", Family: "Norm", Classes: vkNoSpec, Red: ik.RedSum,
+	{Name: "Sum", Family: "Norm", Classes: vkRed, Red: ik.RedSum,
 		Shape: ik.Shape{HasX: true},
 		Call:  func(a *vkArgs) { a.Ret = vkRet(Sum(a.X)) }},
-	{Name: "L1Norm", Family: "Norm", Classes: vkNoSpec, Red: ik.RedL1,
+	{Name: "L1Norm", Family: "Norm", Classes: vkRed, Red: ik.RedL1,
 		Shape: ik.Shape{HasX: true},
 		Call:  func(a *vkArgs) { a.Ret = vkRet(L1Norm(a.X)) }},
-	{Name: "L1NormInc", Family: "Norm", Classes: vkNoSpec, Red: ik.RedL1,
+	{Name: "L1NormInc", Family: "Norm", Classes: vkRed, Red: ik.RedL1,
 		Shape: ik.Shape{HasX: true, Inc: true, IntInc: true},
 		Call:  func(a *vkArgs) { a.Ret = vkRet(L1NormInc(a.X, int(a.N), int(a.IncX))) }},
-	{Name: "L1Dist", Family: "Norm", Classes: vkNoSpec, Red: ik.RedL1Dist,
+	{Name: "L1Dist", Family: "Norm", Classes: vkRed, Red: ik.RedL1Dist,
 		Shape: ik.Shape{HasX: true, HasY: true},
 		Call:  func(a *vkArgs) { a.Ret = vkRet(L1Dist(a.X, a.Y)) }},
 	{Name: "LinfDist", Family: "Norm", Classes: vkAll, Red: ik.RedLinfDist,
